@@ -78,6 +78,8 @@ def strongly_reachable(roots):
 
 
 def oracle(prog, idx):
+    if not prog or prog[-1][0] != "back":
+        return []
     import random
 
     rng = random.Random(f"c07:{idx}:{len(prog)}")
@@ -204,7 +206,7 @@ def nontrivial(prog):
 def run(ctx: Ctx) -> Outcome:
     from ..core import pmap
 
-    n = ctx.n(400, 5000)
+    n = ctx.n(600, 6000)
     out, results = engcheck.run_programs(ctx, n, dict(GEN, n_stmts=ctx.n(9, 16)), "oracle", nontrivial)
     out.rule = ("random programs with views, item/augmented assignment and where=/out= targets, one backward, then the caller "
                 "drops a random subset of its handles — run with gc disabled; non-trivial = >=1 in-place update (placeholder "
